@@ -115,7 +115,10 @@ fn main() {
       let _ = GLOBAL_PROPERTY.set(prop.clone());
       let ctx = Ctx::from_args(&prop, &tier);
       let mut check = Check::new(ctx.clone());
-      check.run_witnesses(&|r| run_replay(r));
+      check.run_witnesses(&|r| match r.engine.as_str() {
+        "E3" | "E3-locks" | "E3-topic" => run_replay(r),
+        _ => Some(Failure::new(&r.property, vcore::FOREIGN_ENGINE, "witness of another engine")),
+      });
       check.run_regressions(&|r| run_replay(r));
       let _ = OPEN_FINDINGS.set(check.findings.findings.iter().filter(|f| f.status == "open").map(|f| f.id.clone()).collect());
       let rule: String;
